@@ -20,6 +20,7 @@
 
 
 #include <string>
+#include <tuple>
 #include <vector>
 #include <boost/lexical_cast.hpp>
 
@@ -60,8 +61,11 @@ public:
    ///    The name of the attribute.
    /// @param[in]  attr_value
    ///    The value of the attribute.
+   /// @return
+   ///    The id of the new attribute, can be used to remove exactly this
+   ///    attribute again with removeAttributeById().
    /// @since  1.15.0, 19.06.2016
-   void addAttribute( const std::string& attr_name, const std::string& attr_value);
+   size_t addAttribute( const std::string& attr_name, const std::string& attr_value);
 
    /// Adds an attribute with "any" type to the internal list of attributes.<br>
    /// The type of the attribute value must be convertible to string.
@@ -72,9 +76,11 @@ public:
    ///    The name of the attribute.
    /// @param[in]  attr_value
    ///    The value of the attribute.
+   /// @return
+   ///    The id of the new attribute.
    /// @since  1.15.0, 19.06.2016
    template< typename T>
-      void addAttribute( const std::string& attr_name, T value);
+      size_t addAttribute( const std::string& attr_name, T value);
 
    /// Returns the value for the given attribute.<br>
    /// If no attribute with the given name is found, an empty string is
@@ -99,14 +105,24 @@ public:
    /// @since  1.15.0, 20.03.2018
    void removeAttribute( const std::string& attr_name);
 
+   /// Removes exactly the attribute with the given id, no matter if other
+   /// attributes with the same name were added afterwards.<br>
+   /// Used for attributes that are bound to a scope.
+   ///
+   /// @param[in]  attr_id  The id that addAttribute() returned.
+   /// @since  x.y.z, 01.10.2026
+   void removeAttributeById( size_t attr_id);
+
 private:
-   /// Value type stored in the internal container.
-   using attr_pair_t = std::pair< std::string, std::string>;
+   /// Value type stored in the internal container: name, value and id.
+   using attr_pair_t = std::tuple< std::string, std::string, size_t>;
    /// Type of the internal container where the attributes are stored.
    using attr_cont_t = std::vector< attr_pair_t>;
 
    /// The container in which the attributes and their values are stored.
    attr_cont_t  mAttributes;
+   /// The id for the next attribute that is added.
+   size_t       mNextId = 1;
 
 }; // LogAttributesContainer
 
@@ -116,9 +132,9 @@ private:
 
 
 template< typename T>
-   void LogAttributesContainer::addAttribute( const std::string& attr_name, T value)
+   size_t LogAttributesContainer::addAttribute( const std::string& attr_name, T value)
 {
-   addAttribute( attr_name, boost::lexical_cast< std::string>( value));
+   return addAttribute( attr_name, boost::lexical_cast< std::string>( value));
 } // LogAttributesContainer::addAttribute
 
 
